@@ -101,6 +101,8 @@ def gen_items(rng, tier):
     for _ in range(150 if tier == "quick" else 2500):
         d = dict(rng.choice(base))
         for k in ("msg", "key", "iv", "aad"):
+            if k == "msg" and d["cipher"] == "11":
+                continue   # PON: the message starts with the XGEM header whose PLI field must match the lengths
             if k in d and rng.chance(2, 3):
                 d[k] = rehex(rng, d[k])
         if d["cipher"] != "3" and d["hash"] in ("8",) and rng.chance(1, 2):
